@@ -195,7 +195,9 @@ def translate():
     import importlib
     import translate as tr
     importlib.reload(tr)
-    return tr.main(), tr.source_hashes()
+    res = tr.main()
+    res['sections'] = tr.section_defines()
+    return res, tr.source_hashes()
 
 
 def lake_build(targets):
@@ -233,6 +235,24 @@ def audit(prop):
     for m in re.finditer(r"'([^']+)' does not depend on any axioms", out):
         found[m.group(1)] = []
     return code == 0, found, out, secs
+
+
+def gen_deps(prop, theorems):
+    """the generated definitions (namespace CGV.Gen) every theorem of the property depends on: `#gen_deps`"""
+    path = os.path.join(LEAN, '.lake', f'deps_{prop}.lean')
+    with open(path, 'w') as fh:
+        fh.write(f'import CGV.Audit.{prop}\nimport CGV.GenDeps\n' + ''.join(f'#gen_deps {t}\n' for t in theorems))
+    code, out, _ = run(['lake', 'env', 'lean', path], cwd=LEAN)
+    found = {}
+    for m in re.finditer(r'gen_deps (\S+): \[(.*?)\]', out, flags=re.S):
+        found[m.group(1)] = [x.strip() for x in m.group(2).replace('\n', ' ').split(',') if x.strip()]
+    try:
+        os.remove(path)
+    except OSError:
+        pass
+    if code != 0 or any(t not in found for t in theorems):
+        return None
+    return found
 
 
 def audit_theorems(prop):
